@@ -20,7 +20,7 @@ def required(tier):
     return ['g2/subgroup', 'g2/twist-random', 'g2/cofactor-cleared', 'g2/order-13', 'g2/order-1621', 'g2/order-13*1621', 'g2/order-big',
             'g2/subgroup+small', 'g2/near-miss', 'g2/wrong-curve', 'g2.aff.new/accept', 'g2.aff.new/reject', 'g2.from_slice/accept',
             'g2.from_slice/reject', 'g2.from_uncompressed/reject', 'g2.from_compressed/reject', 'g2.from_compressed/accept',
-            'g1/valid', 'g1/near-miss', 'g1/random', 'g1.aff.new/accept', 'g1.aff.new/reject']
+            'g1/valid', 'g1/near-miss', 'g1/random', 'g1.aff.new/accept', 'g1.aff.new/reject', 'curve-constant']
 
 
 def run(ctx, spec):
@@ -91,6 +91,14 @@ def run(ctx, spec):
             ctx.classes['g1/' + cls] += 1
             lines.append('_ g1.aff.new %s %s' % (h32(Pt[0]), h32(Pt[1])))
             exp.append(('g1.aff.new', cls, acc, Pt))
+    # the curve constants the validation uses, as the public accessors report them
+    consts = [('_ g1.b', 'ok ' + h32(5)), ('_ g2.b', 'ok ' + F2.enc((0, 5)))]
+    cans = ctx.run([c[0] for c in consts])
+    for (line, want), an in zip(consts, cans):
+        if an == want:
+            ctx.ok('curve-constant', None, False)
+        else:
+            ctx.fail(line.split()[1], 'the curve constant reported by %s is %r, SM9 has %r' % (line.split()[1], an[:140], want[:140]), observed=an, line=line)
     ans = ctx.run(lines)
     for line, an, (op, cls, acc, P) in zip(lines, ans, exp):
         head = an.split(' ', 1)[0]
